@@ -21,6 +21,7 @@ EXPLANATION = (
     "numbering is the same with and without annotations; (ANNOTATION-INERT) inside name resolution an annotation is only "
     "ever handed to the type-resolving functions, never inspected, so scoping and declaration order cannot depend on it; (SAME-NODE) the parser produces the same statement kind with and "
     "without an annotation (only the `ty` field differs) and the same binder kind for `::`/`: T :` and `:=`/`: T =`."
+    ' (ANNOTATION-PERMISSIVE) a written `fn` type resolves to the wildcard purity, so a correct `fn` annotation on a pure function value is not rejected.'
 )
 UNDECIDED = "the acceptance clause: that erasing a correct annotation keeps the program accepted is a completeness property of inference."
 
@@ -122,17 +123,21 @@ def inert_order(F, rep):
     ok = other == [] and not decl_labels
     rep.ob("INERT-ORDER", "type-declarations-emit-nothing", ok,
            "IRCodeGen::compile emits code only for %s; Blob/Enum fall into the empty default arm" % sorted(l for l in emits if l != "_"))
-    # statement_dependencies(Blob|Enum) = {} : they never wait for anything, and only ty_dependency adds edges from annotations
+    # statement_dependencies(Blob|Enum|ExternalDefinition): declarations wait for nothing but other type declarations -
+    # their arms may call ty_dependency (edges to the types their fields name) but never the value folds
     dep = F.fn("sylt_compiler::dependency::statement_dependencies")
     from engines import matches_on, arm_alternatives
-    empties = set()
+    DEP = "sylt_compiler::dependency::"
+    seen = {}
     for m in matches_on(fn_body(dep), NR + "Statement"):
         for arm, alt, vp in arm_alternatives(m):
-            b = peel(arm["body"])
-            if vp and callee(b) == "alloc::collections::btree::set::BTreeSet::new":
-                empties.add(last(vp))
-    rep.ob("INERT-ORDER", "declarations-have-no-dependencies", {"Blob", "Enum", "ExternalDefinition"} <= empties,
-           "type declarations and externals have no ordering dependencies (%s)" % sorted(empties), dep["sp"])
+            if vp and last(vp) in ("Blob", "Enum", "ExternalDefinition"):
+                called = {last(callee(c)) for c in nodes(arm["body"]) if c.get("k") in ("Call", "MethodCall") and (callee(c) or "").startswith(DEP)}
+                seen[last(vp)] = sorted(called)
+    ok = set(seen) == {"Blob", "Enum", "ExternalDefinition"} and all(set(v) <= {"ty_dependency"} for v in seen.values())
+    rep.ob("INERT-ORDER", "declarations-wait-for-types-only", ok,
+           "type declarations and externals depend on nothing but the type declarations their annotations name (dependency "
+           "folds called in their arms: %s)" % seen, dep["sp"])
     # ty_dependency only yields UserType references (variables of Blob/Enum declarations)
     td = F.fn("sylt_compiler::dependency::ty_dependency")
     inserts = [pp(c) for c in nodes(fn_body(td), "MethodCall") if c["m"] == "insert"]
